@@ -260,8 +260,19 @@ role stopFn(qp *qpeerset.QueryPeerset) bool in (dht *IpfsDHT) runLookupWithFollo
 # to wait for them - never one more (it would block forever) and never fewer
 # (a worker would outlive the call).
 func (dht *IpfsDHT) runLookupWithFollowup(ctx context.Context, target string, queryFn queryFn, stopFn stopFn) (*lookupWithFollowupResult, error)
-  props C01 C02 C03
+  props C01 C02 C03 C04 C06 C08 C10
   requires cfgOK(dht)
+  # C08/C04: the follow-up phase asks further peers only if the caller's stop
+  # function, asked after the search phase, says the operation is NOT done
+  # (count/quorum not reached) and the context is alive; the search itself runs
+  # with the caller's query and stop functions
+  ghostvar $asked bool = false
+  ghostvar $st bool = true
+  ghostvar $cerr error = nil
+  ghost at before call(runQuery): assert($arg1 == target && $arg2 == queryFn && $arg3 == stopFn)
+  ghost at call(Err)#0: $cerr = $ret0
+  ghost at call(stopFn)#0: $st = $ret0; $asked = true
+  ghost at assign(doneCh): assert($asked && !$st && $cerr == nil)
   ghostvar $spawned int = 0
   ghostvar $recv int = 0
   ghostvar $cap int = -1
